@@ -7,11 +7,17 @@ SHRINK_BUDGET = 300
 TRUSTED = [
     "Lean 4 kernel; axioms of every theorem audited (propext, Classical.choice, Quot.sound at most)",
     "hand-written model lean/CppUModel/Model/Registry.lean (runAllTests loop, match/shouldRun loops, TestResult counters, "
-    "IgnoredUtestShell with its per-shell flag, UtestShellPointerArray copy/shuffle/reverse/relink over an explicit next-pointer map, "
-    "unDoLastAddTest, findTestWithName/Group, countTests, getTestWithNext, the three list modes, CommandLineTestRunner's repeat loop), "
-    "tied to TestRegistry.cpp / Utest.cpp / TestFilter.cpp / TestResult.cpp / CommandLineTestRunner.cpp by the h_c02 correspondence of this run",
+    "IgnoredUtestShell with its per-shell flag, UtestShellPointerArray constructor/copy loop/getFirstTest over an explicit next-pointer map, "
+    "unDoLastAddTest, findTestWithName/Group, countTests, getTestWithNext, the three list modes, CommandLineTestRunner's repeat loop) and "
+    "Model/OrderedTest.lean (OrderedTestInstaller / OrderedTestShell pointer updates on both linked lists), "
+    "tied to TestRegistry.cpp / Utest.cpp / TestFilter.cpp / TestResult.cpp / CommandLineTestRunner.cpp / OrderedTest.cpp by the h_c02 correspondence of this run",
+    "translate/extract_ptrarray.py: translates UtestShellPointerArray::swap/shuffle/reverse/relinkTestsInOrder statement by statement from clang's "
+    "typed JSON AST into Lean functions over the primitives of Model/PointerArrayRt.lean (array read/write, p->addTest(q), srand/rand seam, "
+    "for-loops with fuel, return, method call); the generated functions are proved equal to the hand model AND executed by the driver in the "
+    "shuffle/reverse operations, so a translator error shows up as a disagreement with the real code",
     "translate/extract_registry.py: regenerates the loop-free decision functions (TestFilter::match, shouldRun's conjunction, "
-    "endOfGroup, IgnoredUtestShell::runOneTest's branch, the shuffle modulus) and shape-checks every loop the model was written from",
+    "endOfGroup, IgnoredUtestShell::runOneTest's branch, the shuffle modulus, the three decisions of OrderedTest.cpp) and shape-checks every "
+    "loop / statement list the hand-written model was written from",
     "SimpleString::contains / operator== / replace / endsWith / subString mean Text.isInfix / == / Text.replaceAll / ... (property C13 links "
     "SimpleString's code to those definitions; composition theorems in Props/C02x.lean); the harness still runs the real SimpleString, "
     "so a defective StrStr shows up as a selection that is not the documented one",
@@ -19,14 +25,20 @@ TRUSTED = [
     "the command line parser (C12) maps -g/-sg/-xg/-xsg/-n/-sn/-xn/-xsn/-ri/-rN/-sSEED/-b/-lg/-ln/-ll to the arguments the runner model takes",
 ]
 ASSUMPTIONS = [
-    "counters are size_t and do not wrap (Nat in the model)",
+    "counters are size_t and do not wrap (Nat in the model); size_t arithmetic of the pointer array is Nat arithmetic (count_ - 1 is only "
+    "evaluated behind the count_ == 0 guards; a removed guard is found by the harness under ASan/UBSan, not by a theorem)",
     "every shell is registered once (a shell added twice makes the C++ list cyclic; outside the quantifier)",
+    "TEST_ORDERED installers run during static initialisation, i.e. before any reverse / shuffle / unDoLastAddTest (an installer run after "
+    "a reordering would follow stale _nextOrderedTest links; outside the quantifier, the harness skips such an operation)",
+    "the shuffle theorems about the regenerated code take a random stream of at least count_ - 1 numbers (rand() always returns)",
     "group and name are NUL-terminated C strings (no embedded NUL)",
     "scripted test bodies never fail (the runner's return value is then the number of repetitions that ran nothing)",
     "list modes: the rendering theorem for names without '#' (list_accumulation_full) is not proved; the oracle checks it on the "
     "implementation's output in every run",
 ]
-RULE = ("registries of 0..200 scripted shells (normal and ignored) with group/name strings over a three-letter alphabet "
+RULE = ("registries of 0..200 scripted shells (normal and ignored; in 30% of the cases also TEST_ORDERED shells registered through the real "
+        "OrderedTestInstaller, mixed with the others in any order, levels from a small set incl. ties, negative, INT_MIN/INT_MAX, ascending / "
+        "descending / all-equal runs) with group/name strings over a three-letter alphabet "
         "(substrings, equal names, empty strings and split groups frequent; in 30% of the cases self-overlapping filter texts with "
         "names in which the match starts inside a failed partial match), 0..4 filters of each of the 8 single kinds plus -t/-st/-xt/-xst group.name and TEST(g, n)/IGNORE_TEST(g, n), every filter built either by the real CommandLineArguments parser (value attached to the option, or in the next argument) or directly as TestFilter objects, mixed within a case; a third of the cases "
         "building the filters through the real CommandLineArguments parser, run-ignored on the registry and on single shells, reverse, "
@@ -87,9 +99,16 @@ def single_pass_contains(h, n):
     return False
 
 
-def gen_tests(rng, n, alpha=ALPHA, maxlen=3, hays=()):
-    """group names come in runs (as TEST_GROUPs do) but a group can reappear later (split group)"""
+LEVELS = [0, 0, 1, 1, 2, 3, 5, -1, -7, 2147483647, -2147483648]
+
+
+def gen_tests(rng, n, alpha=ALPHA, maxlen=3, hays=(), ordered=0.0):
+    """group names come in runs (as TEST_GROUPs do) but a group can reappear later (split group);
+    `ordered` = share of TEST_ORDERED registrations (levels from a small set: ties, head/middle/tail
+    insertions, INT_MIN/INT_MAX), mixed with plain and ignored tests in any order"""
     ops = []
+    style = rng.randrange(4)        # 0 random levels, 1 ascending, 2 descending (every insertion at the head), 3 all equal
+    lv = rng.choice(LEVELS)
     pool = [rstr(rng, maxlen, alpha) for _ in range(rng.randint(1, 4))]
     if hays and rng.random() < 0.5:
         pool.append(rng.choice(hays))
@@ -99,7 +118,16 @@ def gen_tests(rng, n, alpha=ALPHA, maxlen=3, hays=()):
             g = rng.choice(pool) if rng.random() < 0.8 else rstr(rng, maxlen, alpha)
         kind = "i" if rng.random() < 0.3 else "n"
         name = rng.choice(hays) if hays and rng.random() < 0.3 else rstr(rng, maxlen, alpha)
-        ops.append("test %s %s %s" % (kind, hx(g), hx(name)))
+        if ordered and rng.random() < ordered:
+            if style == 0:
+                lv = rng.choice(LEVELS) if rng.random() < 0.8 else rng.randint(-3, 12)
+            elif style == 1:
+                lv = min(lv + rng.choice([0, 1, 1, 2]), 2147483647)
+            elif style == 2:
+                lv = max(lv - rng.choice([0, 1, 1, 2]), -2147483648)
+            ops.append("otest %d %s %s" % (lv, hx(g), hx(name)))
+        else:
+            ops.append("test %s %s %s" % (kind, hx(g), hx(name)))
     return ops
 
 
@@ -230,7 +258,9 @@ def gen_case(rng, tier, malformed=False):
     ops = []
     if rng.random() < 1 / 3:
         ops.append("cmdline")
-    tests = gen_tests(rng, n, alpha, maxlen, hays)
+    # TEST_ORDERED registrations only here: installers run during static initialisation, before any reordering
+    ordered = rng.choice([0.15, 0.4, 0.7, 1.0]) if rng.random() < 0.3 else 0.0
+    tests = gen_tests(rng, n, alpha, maxlen, hays, ordered)
     pool = []
     for t in tests:
         w = t.split()
@@ -307,8 +337,16 @@ def signature(r):
 
 
 def translate(ctx):
-    from translate import extract_registry
-    return extract_registry.run()
+    from translate import extract_registry, extract_ptrarray
+    problems = []
+    err = None
+    # both extractors always run (each keeps its last good output when it cannot translate)
+    for ex in (extract_registry, extract_ptrarray):
+        try:
+            problems += ex.run() or []
+        except Exception as e:
+            problems.append("%s cannot translate the current source: %s" % (ex.__name__.split(".")[-1], e))
+    return problems
 
 
 def _runs(r):
@@ -327,7 +365,7 @@ def nontrivial(r):
     for (t, run, ign, filt) in _runs(r):
         if 0 < filt < t:
             return True
-    n = sum(1 for l in r.ops if l.startswith("test "))
+    n = sum(1 for l in r.ops if l.startswith(("test ", "otest ")))
     return n >= 3 and any(l.startswith(("shuffle", "reverse", "runner")) for l in r.ops) and any(l.startswith(("run",)) for l in r.ops)
 
 
@@ -336,7 +374,31 @@ def _unhex(x):
 
 
 def observe(r, rep):
-    n = sum(1 for l in r.ops if l.startswith("test "))
+    n = sum(1 for l in r.ops if l.startswith(("test ", "otest ")))
+    levels, plain_seen = [], False
+    for l in r.ops:
+        w = l.split()
+        if w[0] == "test":
+            plain_seen = True
+            if levels:
+                rep.count("ordered.plain_test_registered_after_ordered")
+        elif w[0] == "otest" and len(w) >= 4:
+            lv = int(w[1])
+            if not levels:
+                rep.count("ordered.first" + ("_after_plain_tests" if plain_seen else "_in_empty_registry"))
+            elif lv < levels[0] if levels == sorted(levels) else lv < min(levels):
+                rep.count("ordered.insert_at_head")
+            elif lv >= max(levels):
+                rep.count("ordered.insert_at_tail")
+            else:
+                rep.count("ordered.insert_in_middle")
+            if lv in levels:
+                rep.count("ordered.level_tie")
+            levels.append(lv)
+    if levels:
+        rep.count("ordered.cases")
+        if any(l.startswith(("shuffle", "reverse")) for l in r.ops):
+            rep.count("ordered.then_reordered")
     rep.count("tests.%s" % ("0" if n == 0 else "1" if n == 1 else "2-9" if n < 10 else "10-40" if n <= 40 else "41-200"))
     if "cmdline" in r.ops:
         rep.count("branch.filters_via_CommandLineArguments")
@@ -363,7 +425,7 @@ def observe(r, rep):
     names, groups = [], []
     for l in r.ops:
         w = l.split()
-        if w[0] == "test" and len(w) >= 4:
+        if w[0] in ("test", "otest") and len(w) >= 4:
             groups.append(_unhex(w[2])); names.append(_unhex(w[3]))
     for l in r.ops:
         w = l.split()
@@ -398,20 +460,30 @@ def observe(r, rep):
 
 LEVEL_TEXT = ("Machine-checked Lean 4 theorems over an executable model of TestRegistry::runAllTests, UtestShell::match/shouldRun, "
               "TestFilter::match, the TestResult counters, IgnoredUtestShell (per-shell flag, willRun), UtestShellPointerArray, "
-              "unDoLastAddTest / findTestWith* / countTests / getTestWithNext, the list modes and CommandLineTestRunner's repeat loop, for all "
+              "unDoLastAddTest / findTestWith* / countTests / getTestWithNext, the list modes, CommandLineTestRunner's repeat loop and the "
+              "TEST_ORDERED installer (OrderedTest.cpp), for all "
               "registries, filter lists, run-ignored settings, repeat counts and random streams of any length: run + ignored + filtered-out = "
               "number of registered tests; a test is selected iff the documented OR-within-kind / AND-across-kinds / substring|exact|negated "
               "reading holds (stated with List.IsInfix); the started tests are exactly the selected ones in list order, each body executed "
               "once; in EVERY repetition of the runner (shuffle re-seeded and applied to the previous order) the same tests start and run, "
               "each once, with identical counters; shuffle is a permutation for every random stream, reverse is the exact reverse, array -> "
               "relinked next pointers -> list is the array (given distinct shells); group start/end callbacks are balanced and sit at the "
-              "block boundaries for every order; list modes run nothing and -ln lists exactly the selected tests. The decision functions are "
-              "regenerated from the source on every run; the model is tied to the code by a differential harness (real registry, runner, "
-              "parser, filters and SimpleString, scripted shells, rand() observed at the seam, ASan/UBSan) and the implementation's "
+              "block boundaries for every order; list modes run nothing and -ln lists exactly the selected tests; after ANY sequence of "
+              "plain / ignored / ordered registrations the list holds every shell exactly once, plain tests first (newest first), ordered tests "
+              "behind them sorted by level with ties in registration order (ordered_history), so every counting theorem applies to registries "
+              "with ordered tests. UtestShellPointerArray::swap/shuffle/reverse/relinkTestsInOrder are TRANSLATED from the clang AST on every "
+              "run and proved EQUAL to the array model the theorems are about (gen_*_eq, gen_shuffleTests_perm); the decision functions "
+              "(filter match, shouldRun, endOfGroup, ignored branch, shuffle modulus, the three comparisons of OrderedTest.cpp) are regenerated "
+              "too; the remaining loops are tied to the code by a differential harness (real registry, runner, parser, filters, "
+              "OrderedTestInstaller and SimpleString, scripted shells, rand() observed at the seam, ASan/UBSan) and the implementation's "
               "observations are judged by an independent specification oracle.")
-LEVEL_NOTE = ("Trusted: Lean kernel; the hand-written model of the loops (validated against the code by the correspondence of this run); "
-              "the extractor for the loop-free decision functions and the loop shapes; SimpleString operations as their Text.* reference "
-              "(C13 / C02x). Observed only, not proved: that the C++ loops are the model's loops (differential runs), behaviour of rand(), "
-              "the exact rendering of -lg/-ln for '#'-free names (list_accumulation_full, checked by the oracle on every run).")
-TECHNIQUE = ("Lean 4 induction/invariant proofs over an executable model (explicit next-pointer heap for the relink, key-multiset invariant "
-             "for the repeat loop) + regenerated decision functions + differential correspondence harness with an independent specification oracle")
+LEVEL_NOTE = ("Trusted: Lean kernel; the hand-written model of the loops that are not translated (run loop, match loop, pointer-array constructor, "
+              "list modes, repeat loop, the pointer updates of the ordered installer), validated against the code by the correspondence of this run; "
+              "the two extractors (the AST translator's output is itself executed against the real code); SimpleString operations as their Text.* "
+              "reference (C13 / C02x). Observed only, not proved: that those C++ loops are the model's loops (differential runs), behaviour of rand(), "
+              "size_t wrap-around behind the count_ == 0 guards (ASan/UBSan), the exact rendering of -lg/-ln for '#'-free names "
+              "(list_accumulation_full, checked by the oracle on every run). Outside the quantifier: a TEST_ORDERED installer running after a "
+              "reverse/shuffle/unDoLastAddTest (static initialisation is over by then).")
+TECHNIQUE = ("Lean 4 induction/invariant proofs over an executable model (explicit next-pointer heap for the relink and for the two linked lists of the "
+             "ordered installer, list-segment lemmas, key-multiset invariant for the repeat loop) + clang-AST translation of the pointer-array methods "
+             "with equality proofs + regenerated decision functions + differential correspondence harness with an independent specification oracle")
